@@ -87,13 +87,14 @@ SEEDS=[ # prop, seed dir, expect
  ("C16","C16-1","expand.bracesSeqRec#inv-init@loop2.pad-covers-endpoints"),
  ("C20","C20-1","expand.Config.assgnArit#ensures@reads-old-value-first"),("C20","C20-2","syntax.Parser.arithmExpr#precedence@"),
  ("C04","C04-1","syntax.simplifier.visit#ensures@match-keeps-quotes"),("C04","C04-2","syntax.simplifier.removeNegateTest#ensures@complement-table"),
- ("C13","C13-1","syntax.Quote#"),("C18","C18-1","pattern.QuoteMeta#"),("C18","C18-2","pattern.HasMeta#"),
+ ("C13","C13-1","syntax.Quote#"),("C34","C34-1","expand.listEnviron_#"),("C34","C34-3","expand.listEnviron_#"),("C09","C09-1","syntax.Parser.rune#"),("C09","C09-3","syntax.Stmt.End#"),("C09","C09-4","syntax.Parser.rune#"),("C33","C33-2","expand.Config.sliceElems#ensures@sparse-offset"),("C20","C20-4","syntax.Parser.arithmExpr#precedence@"),("C18","C18-1","pattern.QuoteMeta#"),("C18","C18-2","pattern.HasMeta#"),
  ("C28","C23-2","interp.Runner.readLine#inv-pres@"),("C23","C23-2","interp.Runner.readLine#inv-pres@"),("C23","C23-1","expand.ReadFields#inv-"),
  ("C06","C06-2","syntax#eof-exit@Parser.zshSubFlags"),
  ("C08","C06-1","syntax.Parser.reset#"),
  ("C07","C07-1","syntax#refill-retry@Parser.rune"),("C07","C07-2","syntax#refill-at-boundary@Parser.rune"),("C07","C08-2","syntax#refill-at-boundary@Parser.advanceLitHdoc"),
 ]
 REVERTS=[ # prop, fix commit in /repo whose reversal must be caught, expect
+ ("C09","c1165de","syntax.Parser.rune#inv-init@loop1.col-tracks-next-byte"),
  ("C07","baece75","syntax#refill-at-boundary@Parser.rune"),
  ("C07","fd8acef","syntax#refill-at-boundary@Parser.next"),
  ("C07","051bed0","syntax#refill-retry@Parser.peekTwo"),
